@@ -107,3 +107,18 @@ Proof.
   pose proof (handle_sim c (read_all (fixed Release) segs []) init [] [] denotes_init) as Hs.
   destruct (handle_e c init (read_all (fixed Release) segs []) []) as [[o1 s'] t1]. rewrite H in Hs. destruct Hs as (-> & -> & Hd). auto.
 Qed.
+
+(* ... and on ARBITRARY input (C10): whatever bytes arrive in whatever pieces, the loop over the engine does not
+   panic, and the engine ends in an invariant state denoting the map changed by exactly the commands the command
+   parser accepted before the first rejected frame. *)
+Theorem hostile_over_engine c segs :
+  let '(out, s', t) := handle_e c init (read_all (fixed Release) segs []) [] in
+  t <> TPanic /\ denotes s' (apply_all [] (accepted (read_all (fixed Release) segs []))).
+Proof.
+  pose proof (handle_sim c (read_all (fixed Release) segs []) init [] [] denotes_init) as Hs.
+  pose proof (handler_total [] segs) as Ht. unfold handler_from in Ht.
+  pose proof (handler_store_effect (read_all (fixed Release) segs []) [] []) as He.
+  destruct (handle_e c init (read_all (fixed Release) segs []) []) as [[o1 s'] t1].
+  destruct (handle [] (read_all (fixed Release) segs []) []) as [[o2 m'] t2]. cbn [fst snd] in *.
+  destruct Hs as (_ & -> & Hd). split; [exact Ht|]. rewrite <- He. exact Hd.
+Qed.
